@@ -123,6 +123,7 @@ func (c *Cache[V]) Cleanup() {
 		return true
 	})
 
+	verifPoint("cleanup.scanned")
 	c.m.Del(keys...)
 }
 
@@ -138,6 +139,7 @@ func (c *Cache[V]) Reset() {
 		return true
 	})
 
+	verifPoint("reset.scanned")
 	c.m.Del(keys...)
 }
 
